@@ -35,6 +35,8 @@ func checkC09(p *Prog, r *Report) {
 	reportedListRule(p, r, "R13", bindMgr, "BindingManagementEntryDataType", "BindingId")
 	r.Rule("R14", "the outcome of AddBinding/RemoveBinding is the outcome of the node-management handler: a refused request is answered with an error")
 	outcomeForwardedRule(p, r, "R14", bindMgr)
+	deepCopyRule(p, r, "R15", bindMgr)
+	featureTypeKept(p, r, "R16")
 	hasBindingRule(p, r, "R6")
 	r.Rule("R11", "a delete is tied to the sending peer: the pre-check of RemoveBinding asks about the address of the feature resolved on the local device and the address of the feature resolved on the requesting device, not about address data copied from the request")
 	deletePrecheckRule(p, r, "R11")
